@@ -137,6 +137,7 @@ type Sched struct {
 
 	held             [maxTasks]int
 	SkippedUnderLock int
+	Resumed          int  // scheduling resumed after every live task had been blocked (a waiter woken from outside, e.g. by a timer)
 	Selects          int  // select statements whose case order was drawn
 	BlockOps         int  // possibly blocking operations bracketed
 	BlockedWaits     int  // ... that really had to wait for another task
@@ -908,6 +909,7 @@ func (s *Sched) watch() int {
 		switch atomic.LoadInt32(&u.state) {
 		case stArrived:
 			atomic.StoreInt32(&s.allBlocked, 0)
+			s.Resumed++
 			raceDisable()
 			next := s.pick(nil, KindOp, "resume")
 			if next != nil {
